@@ -652,8 +652,47 @@ def p_C10(ctx):
     return ctx.finish("every file TLC reaches from 4 base files by rewriting sequences of depth <= 2 (quick) / 3 (thorough) (swap, split, renumber ids, comment, blank, remark, header, BOM, padding, id 0 explicit/omitted) is written, parsed and evaluated by the real code and compared with its base; each building of a second set (lattice, shipped files, random with auxiliaries, MC_Comp aux family) is parsed and evaluated 12 (48) times, the hash orders taken being recorded by the hooks")
 
 
+def cli_replay(ctx, fn, recs, name, trace_module, shards=None):
+    import cli
+    d = os.path.join(WORK, "run", ctx.pid)
+    os.makedirs(d, exist_ok=True)
+    tpath = os.path.join(d, name + ".ndjson")
+    out = []
+    for r in recs:
+        ctx.ncases += 1
+        r["case"] = ctx.ncases
+        ctx.cases[ctx.ncases] = r
+        out.append(r)
+    cli.run_many(fn, out, tpath)
+    res = vlib.validate(trace_module, tpath, shards=shards)
+    ctx.events += res["events"]
+    ctx.verdicts += res["verdicts"]
+    ctx.drifts += res["drifts"]
+    ctx.unjudged += res["unjudged"]
+    ctx.notes += res["notes"]
+    if not res["accepted"]:
+        ctx.rejected = True
+    ctx.last_trace = tpath
+    return res
+
+
+def p_C19(ctx):
+    import cli
+    st = ctx.mc("MC_C19", "MC_C19_quick.cfg" if ctx.quick else "MC_C19_thorough.cfg", timeout=6000)
+    cli_replay(ctx, cli.c19_case, list(vlib.mc_cases(st)), "configs", "Trace_C19")
+    ctx.nontrivial = set(range(ctx.ncases))
+    ctx.extra["exhaustive"] = not ctx.quick
+    ev = [json.loads(l) for l in open(ctx.last_trace).readlines()[100:103]]
+    ctx.samples = [{"cfg": e["cfg"], "argv": e["argv"], "observed": {k: e["obs"][k] for k in ("exit", "origen", "oc")}} for e in ev]
+    ctx.assumptions = ["the driver builds the components file, the factors file and argv from the configuration (driver/cli.py) and projects stdout / --json / --oc to the event; it makes no comparison",
+                       "where the statement is silent (invalid metadata overridden by a valid option; invalid RED1/RED2 metadata) Cli!Allowed accepts both refusal (65) and ignoring it",
+                       "-f together with --red1/--red2 is accepted by the tool (only -f with -l is refused by the option parser): the option wins over the file, as the statement says"]
+    return ctx.finish("every configuration TLC enumerates from spec/Cli.tla (quick: the complete area x k_exp product and the complete location x RED1 x RED2 product, the other half by a covering function - 3538 runs; thorough: the complete product, 607 500 runs) is executed by the real binary (debug profile); exit code, the three origin lines, effective k_exp / area / RED1 / RED2 in --json, write-back in --oc metadata and the per-m2 ratio are judged by TLC against Cli!Allowed")
+
+
 PROPS = {
     "C01": p_C01,
+    "C19": p_C19,
     "C02": p_C02,
     "C03": p_C03,
     "C04": p_C04,
@@ -672,7 +711,7 @@ PROPS = {
 
 def run_property(pid, tier, seed, replay):
     ctx = Ctx(pid, tier, seed)
-    vlib.build(cli=False)
+    vlib.build(cli=pid in ("C10", "C16", "C17", "C18", "C19"))
     if replay:
         return run_replay(ctx, replay)
     return PROPS[pid](ctx)
